@@ -260,6 +260,14 @@ func (f *Flooder) HandleRouteAdvertise(
 		}
 	}
 
+	// A full-table replay carries only the replaying peer in its seen-by list, so an
+	// announcement that already travelled through us (or our own routes) can come back
+	// over a newly connected link. Storing is refused by the route tables; forwarding it
+	// would spread a path that passes through us twice.
+	if originAgent == f.localID || containsAgent(path, f.localID) {
+		return false
+	}
+
 	// Convert protocol routes to routing entries (CIDR, domain, forward, and agent)
 	cidrEntries := make([]routing.RouteEntry, 0, len(routes))
 	domainEntries := make([]routing.DomainRouteEntry, 0)
